@@ -336,12 +336,14 @@ namespace Dune
       static_assert(r == cols, "Size mismatch");
       FieldMatrix<K,rows,cols> C(*this);
 
+      // the product is accumulated in the copy: M may be this matrix itself
       for (size_type i=0; i<rows; i++)
         for (size_type j=0; j<cols; j++) {
-          (*this)[i][j] = 0;
+          C[i][j] = 0;
           for (size_type k=0; k<cols; k++)
-            (*this)[i][j] += C[i][k]*M[k][j];
+            C[i][j] += (*this)[i][k]*M[k][j];
         }
+      *this = C;
       return *this;
     }
 
